@@ -94,6 +94,18 @@ def classify(lines, base, entry, randomised=False):
     return "same", None, site
 
 
+def later_accepts(lines, base, entry, first):
+    """after the first (reported) difference: verifications the fault-free run rejects and this run accepts"""
+    out = []
+    if entry[0] != "ran":
+        return out
+    for i in range(first + 1, min(len(base), len(entry[1]))):
+        t = lines[i].split()
+        if len(t) > 2 and t[0] == "ck" and t[2] == "verify" and base[i].startswith("rc=1") and entry[1][i].startswith("rc=0"):
+            out.append(i)
+    return out
+
+
 def scenarios(pool, extra_keys, tier):
     """name -> op lines; every scenario is self-contained and frees what it creates"""
     sc = {}
@@ -135,6 +147,22 @@ def scenarios(pool, extra_keys, tier):
             "jwks 6 load %s strn" % hx(more), "jwks 6 errany", "jwks 6 count", "jwks 6 item 0", "jwks 6 item 1", "jwks 6 item %d" % (nbig // 2), "jwks 6 item %d" % (nbig - 1),
             "jwks 6 item %d" % nbig, "jwks 6 item %d" % (nbig + 1), "jwks 6 item %d" % (nbig + 2), "jwks 6 find %s" % hx(b"k-5"), "jwks 6 find %s" % hx(b"b"), "jwks 6 freebad",
             "jwks 6 item 5", "jwks 6 item %d" % (nbig - 1), "jwks 6 free 0", "jwks 6 item 0", "jwks 6 count", "jwks 6 del"]
+    # a policy that is replaced: whichever allocation fails on the way, the checker never ends up more lenient than the
+    # fault-free one (tokens it rejects stay rejected for the rest of the checker's life)
+    from world import seg, hs_sig
+
+    def tok_(claims):
+        m_ = seg({"alg": "HS256"}) + b"." + seg(claims)
+        return hx(m_ + b"." + hs_sig(1, oct_.k, m_))
+    sc["checker-policy-replace"] = [
+        "clock 1000", "jwks 7 load %s strn" % hx(jwk), "ck 0 new", "ck 0 setkey 0 7 0", "ck 0 claimset iss %s" % hx(b"issuer-A"),
+        "ck 0 verify " + tok_({"iss": "issuer-A"}), "ck 0 claimset iss %s" % hx(b"issuer-B"), "ck 0 claimset aud %s" % hx(b"aud-X"),
+        "ck 0 claimset sub %s" % hx(b"sub-1"), "ck 0 claimset sub %s" % hx(b"sub-2"),
+        "ck 0 verify " + tok_({"iss": "issuer-B", "aud": "aud-X", "sub": "sub-2"}), "ck 0 verify " + tok_({"iss": "issuer-C", "aud": "aud-X", "sub": "sub-2"}),
+        "ck 0 verify " + tok_({"iss": "issuer-A", "aud": "aud-X", "sub": "sub-2"}), "ck 0 verify " + tok_({"aud": "aud-X", "sub": "sub-2"}),
+        "ck 0 verify " + tok_({"iss": "issuer-B", "aud": "aud-Y", "sub": "sub-2"}), "ck 0 verify " + tok_({"iss": "issuer-B", "aud": "aud-X", "sub": "sub-1"}),
+        "ck 0 leeway exp 5", "ck 0 verify " + tok_({"iss": "issuer-B", "aud": "aud-X", "sub": "sub-2", "exp": 900}),
+        "ck 0 claimdel sub", "ck 0 verify " + tok_({"iss": "issuer-C", "aud": "aud-X"}), "ck 0 free", "jwks 7 del"]
     keys = [("rsa2048", "RS256"), ("p256", "ES256"), ("ed25519", "EdDSA")]
     if tier == "thorough":
         keys += [("rsa2048", "PS384")]
